@@ -11,6 +11,8 @@ import Mappy.Gen.Schemas
 import Mappy.Model.Transformer
 import Mappy.Model.Validator
 import Mappy.Model.Comments
+import Mappy.Model.Schema
+import Mappy.Gen.Patterns
 open Lean Mappy Mappy.Wire
 
 namespace Mappy.Driver
@@ -250,6 +252,20 @@ def assignOp (req : Json) : Except String Json := do
   pure (Json.mkObj [("attached", .arr (att.map fun l => Json.arr (l.map fun s => Json.str (l2s s)).toArray).toArray),
                     ("rest", .arr (rest.map fun c => Json.str (l2s c.2)).toArray)])
 
+/-! ### Draft-4 subset -/
+def encodePath (p : List DictUtils.PathEl) : Json :=
+  .arr (p.map fun e => match e with | .key k => Json.str (l2s k) | .idx i => Json.num (JsonNumber.fromInt i)).toArray
+
+def errsOp (req : Json) : Except String Json := do
+  let name ← getStr req "schema"
+  let inst ← getJ req "inst"
+  let env : Schema.Env := ⟨Gen.files, Gen.patterns⟩
+  match lookup (Versioning.fileOf name) Gen.files with
+  | none => pure (Json.mkObj [("err", .str "IOError")])
+  | some s =>
+    let es := Schema.errs env 60 s inst []
+    pure (.arr (es.map fun (p, k) => Json.arr #[encodePath p, .str (l2s k)]).toArray)
+
 def handle (op : String) (req : Json) : Except String Json := do
   match op with
   | "echo" => pure (ofJ (← getJ req "v"))
@@ -274,6 +290,7 @@ def handle (op : String) (req : Json) : Except String Json := do
   | "transform" => transformOp req
   | "messages" => messagesOp req
   | "assign" => assignOp req
+  | "errs" => errsOp req
   | "lowercase" => pure (ofJ (Validator.convertLowercase (← getJ req "v")))
   | "lower" => pure (Json.str (l2s (lower (← getStr req "s"))))
   | _ => throw s!"unknown op {op}"
